@@ -110,11 +110,24 @@ where
 /// interrupt only on a redirection error during the execution of a special
 /// built-in. The caller is responsible for checking the condition and
 /// interrupting accordingly.
+///
+/// An exception is an error that occurred while expanding the operand of the
+/// redirection (or the content of a here-document). Such an error is an
+/// expansion error rather than a redirection error, so it is handled in the
+/// same way as [`crate::expansion::Error`], which interrupts the shell.
 impl<S> Handle<S> for crate::redir::Error
 where
     S: Isatty + WriteAll,
 {
     async fn handle(&self, env: &mut Env<S>) -> super::Result {
+        if let crate::redir::ErrorCause::Expansion(cause) = &self.cause {
+            let error = crate::expansion::Error {
+                cause: cause.clone(),
+                location: self.location.clone(),
+            };
+            return error.handle(env).await;
+        }
+
         print_report(env, &self.to_report()).await;
         env.exit_status = ExitStatus::ERROR;
         Continue(())
